@@ -760,6 +760,7 @@ def mon_restore(case):
                 if was_parked and not next_after_restore:
                     out.append(f"step {i+1}: restore reported success although the runtime, parked on its restore poll, had not asked for next")
                 restore_pending_step = None
+                polled = False      # a restore that succeeded: the runtime has left its restore poll (a later restore finds it on `next`)
             elif e.startswith("restore done"):
                 restore_pending_step = None
             m = re.match(r"rt\.creds:(\S*)=(\d+)(?:,key=(\S+))?", e)
